@@ -2236,6 +2236,8 @@ _orig_contains = contains
 
 
 def subscript(ip, obj, idx, node):       # noqa: F811
+    if (getattr(type(obj), '__module__', '') or '').startswith('props') and hasattr(type(obj), '__getitem__'):
+        return ip.call(type(obj).__getitem__, [obj, idx], {})      # ghost object of the contract layer: interpreted
     if isinstance(obj, ADict):
         n = adict_find(ip, obj, idx)
         if n is None:
